@@ -240,8 +240,13 @@ type overlappingFieldsCanBeMergedManager struct {
 	comparedFragmentPairs pairSet
 	// cachedFieldsAndFragmentNames interface{}
 
-	// per selectionSet
-	comparedFragments map[string]bool
+	// pairs of fields whose sub selection sets are being compared further up the call stack
+	comparingFields map[fieldPair]bool
+}
+
+type fieldPair struct {
+	fieldA, fieldB       *ast.Field
+	areMutuallyExclusive bool
 }
 
 func (m *overlappingFieldsCanBeMergedManager) findConflictsWithinSelectionSet(selectionSet ast.SelectionSet) []*ConflictMessage {
@@ -257,11 +262,13 @@ func (m *overlappingFieldsCanBeMergedManager) findConflictsWithinSelectionSet(se
 	// Note: this is the *only place* `collectConflictsWithin` is called.
 	m.collectConflictsWithin(&conflicts, fieldsMap)
 
-	m.comparedFragments = make(map[string]bool)
+	// the fragments already compared with this selection set's fields: local to this
+	// comparison, so that a comparison nested inside it cannot make it forget them
+	comparedFragments := make(map[string]bool)
 	for idx, fragmentSpreadA := range fragmentSpreads {
 		// (B) Then collect conflicts between these fieldMap and those represented by
 		// each spread fragment name found.
-		m.collectConflictsBetweenFieldsAndFragment(&conflicts, false, fieldsMap, fragmentSpreadA)
+		m.collectConflictsBetweenFieldsAndFragment(&conflicts, comparedFragments, false, fieldsMap, fragmentSpreadA)
 
 		for _, fragmentSpreadB := range fragmentSpreads[idx+1:] {
 			// (C) Then compare this fragment with all other fragments found in this
@@ -275,11 +282,11 @@ func (m *overlappingFieldsCanBeMergedManager) findConflictsWithinSelectionSet(se
 	return conflicts.Conflicts
 }
 
-func (m *overlappingFieldsCanBeMergedManager) collectConflictsBetweenFieldsAndFragment(conflicts *conflictMessageContainer, areMutuallyExclusive bool, fieldsMap *sequentialFieldsMap, fragmentSpread *ast.FragmentSpread) {
-	if m.comparedFragments[fragmentSpread.Name] {
+func (m *overlappingFieldsCanBeMergedManager) collectConflictsBetweenFieldsAndFragment(conflicts *conflictMessageContainer, comparedFragments map[string]bool, areMutuallyExclusive bool, fieldsMap *sequentialFieldsMap, fragmentSpread *ast.FragmentSpread) {
+	if comparedFragments[fragmentSpread.Name] {
 		return
 	}
-	m.comparedFragments[fragmentSpread.Name] = true
+	comparedFragments[fragmentSpread.Name] = true
 
 	if fragmentSpread.Definition == nil {
 		return
@@ -303,7 +310,7 @@ func (m *overlappingFieldsCanBeMergedManager) collectConflictsBetweenFieldsAndFr
 		if fragmentSpread.Name == baseFragmentSpread.Name {
 			continue
 		}
-		m.collectConflictsBetweenFieldsAndFragment(conflicts, areMutuallyExclusive, fieldsMap, fragmentSpread)
+		m.collectConflictsBetweenFieldsAndFragment(conflicts, comparedFragments, areMutuallyExclusive, fieldsMap, fragmentSpread)
 	}
 }
 
@@ -360,15 +367,13 @@ func (m *overlappingFieldsCanBeMergedManager) findConflictsBetweenSubSelectionSe
 	// (I) Then collect conflicts between the first collection of fields and
 	// those referenced by each fragment name associated with the second.
 	for _, fragmentSpread := range fragmentSpreadsB {
-		m.comparedFragments = make(map[string]bool)
-		m.collectConflictsBetweenFieldsAndFragment(&conflicts, areMutuallyExclusive, fieldsMapA, fragmentSpread)
+		m.collectConflictsBetweenFieldsAndFragment(&conflicts, make(map[string]bool), areMutuallyExclusive, fieldsMapA, fragmentSpread)
 	}
 
 	// (I) Then collect conflicts between the second collection of fields and
 	// those referenced by each fragment name associated with the first.
 	for _, fragmentSpread := range fragmentSpreadsA {
-		m.comparedFragments = make(map[string]bool)
-		m.collectConflictsBetweenFieldsAndFragment(&conflicts, areMutuallyExclusive, fieldsMapB, fragmentSpread)
+		m.collectConflictsBetweenFieldsAndFragment(&conflicts, make(map[string]bool), areMutuallyExclusive, fieldsMapB, fragmentSpread)
 	}
 
 	// (J) Also collect conflicts between any fragment names by the first and
@@ -463,6 +468,18 @@ func (m *overlappingFieldsCanBeMergedManager) findConflict(parentFieldsAreMutual
 			Position:     fieldB.Position,
 		}
 	}
+
+	// Fragments that reach themselves through a field can lead back to the very pair of
+	// fields being compared: that comparison is already under way and adds nothing.
+	pair := fieldPair{fieldA, fieldB, areMutuallyExclusive}
+	if m.comparingFields[pair] {
+		return nil
+	}
+	if m.comparingFields == nil {
+		m.comparingFields = make(map[fieldPair]bool)
+	}
+	m.comparingFields[pair] = true
+	defer delete(m.comparingFields, pair)
 
 	// Collect and compare sub-fields. Use the same "visited fragment names" list
 	// for both collections so fields in a fragment reference are never
